@@ -93,6 +93,10 @@ def instances(tier, seed):
         add(kind='expr', spec=m, exprs=[rpoly(rng, lv, rng.choice([1, 2, 3])) for _ in range(rng.choice([1, 1, 2]))])
     for order in (1, 2, 3):
         add(kind='chain', order=order)
+    # B-spline signals: a degree-k signal has exactly k derivatives (the lowest member is piecewise constant)
+    for order in (0, 1, 2, 3):
+        for what in ('variable', 'parameter'):
+            add(kind='signal-chain', order=order, what=what)
     return items
 
 
@@ -102,6 +106,42 @@ def run(item):
     stats = {'unsat': 0, 'sat': 0, 'unknown': 0, 'queries': 0, 'solver_s': 0.0}
     proved, viol, incon = [], [], []
     rng = random.Random(item.get('seed', 0))
+    if item['kind'] == 'signal-chain':
+        order, what = item['order'], item['what']
+        ocp = Ocp()
+        x = ocp.state()
+        sig = ocp.variable(grid='bspline', order=order) if what == 'variable' else ocp.parameter(grid='bspline', order=order)
+        ocp.set_der(x, sig)
+        e = sig
+        seen = [sig]
+        for j in range(1, order + 1):
+            try:
+                with quiet():
+                    e = ocp.der(e)
+            except Exception as ex:
+                viol.append({'property': PROP, 'key': 'signal-chain-raises-early|order%d' % order, 'label': 'der^%d(%s)' % (j, what), 'detail': 'der^%d of a degree-%d bspline %s raised: %s' % (j, order, what, str(ex)[:100])})
+                break
+            if any(ca.is_equal(e, q) for q in seen) or not e.is_symbolic():
+                viol.append({'property': PROP, 'key': 'signal-chain|order%d' % order, 'label': 'der^%d(%s)' % (j, what), 'detail': 'der^%d of a bspline signal is not a new signal symbol: %s' % (j, e)})
+            seen.append(e)
+            proved.append('der^%d(%s of degree %d) exists' % (j, what, order))
+        if not viol:
+            raised = False
+            try:
+                with quiet():
+                    ocp.der(e)
+            except Exception:
+                raised = True
+            if raised:
+                proved.append('der^%d(%s of degree %d) raises' % (order + 1, what, order))
+            else:
+                viol.append({'property': PROP, 'key': 'signal-chain-no-raise|order%d' % order, 'label': 'der^%d(%s)' % (order + 1, what),
+                             'detail': 'asking for derivative %d of a degree-%d bspline %s (the piecewise-constant member has none) did not raise' % (order + 1, order, what)})
+        res = {'stats': stats, 'obligations': len(proved) + len(viol), 'discharged': len(proved), 'nontrivial': proved, 'violations': viol, 'shape': 'signal chain %s order %d' % (what, order),
+               'sample': {'kind': 'signal-chain', 'order': order, 'what': what}}
+        if viol:
+            res['status'] = 'violation'
+        return res
     if item['kind'] == 'chain':
         order = item['order']
         ocp = Ocp()
